@@ -101,7 +101,7 @@ def normalize_first(ctx, rule):
     return pl
 
 
-def sibling_agreement(ctx, rule_b, rule_c, stages_too=True, only=None):
+def sibling_agreement(ctx, rule_b, rule_c, stages_too=True, only=None, which_stages=("split", "strip")):
     pl = pipelines(ctx, rule_b)
     if "query" not in pl or "record" not in pl:
         return
@@ -111,7 +111,7 @@ def sibling_agreement(ctx, rule_b, rule_c, stages_too=True, only=None):
             if st[0] in ("split", "strip"):
                 pats = U.array_variants(st[1][0]) if st[1] else None
                 cls.setdefault(st[0], {})[name] = (pats, body)
-    for stage in ("split", "strip"):
+    for stage in which_stages:
         d = cls.get(stage, {})
         key = "classes-agree:%s" % stage
         if "query" not in d or "record" not in d:
